@@ -137,7 +137,7 @@ def main(argv=None):
             return do_replay(prop, wl, replay, work)
         total = int(os.environ.get("RTMON_CASES", wl.CASES[tier]))
         nshards = int(os.environ.get("RTMON_SHARDS", wl.SHARDS[tier]))
-        timeout = wl.TIMEOUT[tier] if hasattr(wl, "TIMEOUT") else (240 if tier == "quick" else 3000)
+        timeout = wl.TIMEOUT[tier] if hasattr(wl, "TIMEOUT") else (900 if tier == "quick" else 6000)
         results = run_shards(prop, tier, seed, nshards, total, timeout, workdir=work)
         if tier == "thorough" and getattr(wl, "REPO_TESTS", True) and not os.environ.get("RTMON_NO_REPO_TESTS"):
             results.append(run_repo_tests(prop, work))
